@@ -408,6 +408,29 @@ def run(ctx):
                 bd = strip_sym(r[3][r[4].index("bucket_duration")])
                 ok = ok and is_param(bd, 1)
             chk.ob("C15.d", nw.path, ok, "max_bucket_duration = bucket_duration * buckets" if ok else "the window length is not bucket_duration * bucket count", nw.loc())
+    # the window is what was configured: the bucket duration handed to the summary comes from the configured duration (or
+    # its default) alone and the bucket count from the configured count alone — one knob does not depend on the other
+    if p is not None:
+        gd_ = (p.method(f"{P}::distribution::DistributionBuilder", "get_distribution") or [None])[0]
+        if gd_ is not None:
+            ns = [c for c in nonforeign_calls(gd_) if c.is_("Distribution::new_summary") or (c.is_("RollingSummary::new") and c.fn is gd_)]
+            if len(ns) == 1:
+                a = arg_syms(ns[0])
+                dur, cnt = (a[1], a[2]) if ns[0].is_("Distribution::new_summary") else (a[1], a[0])
+                if not ns[0].is_("Distribution::new_summary"):
+                    dur, cnt = a[1], a[0]
+
+                def cfg_fields(x):
+                    out = set()
+                    for y in sym_walk(x):
+                        fp = y if isinstance(y, tuple) and y and y[0] == "field" else None
+                        if fp is not None and is_param(_root(fp), 0) and not str(fp[2]).isdigit():
+                            out.add(fp[2])
+                    return out
+
+                fd, fc = cfg_fields(dur), cfg_fields(cnt)
+                okw = len(fd) == 1 and len(fc) == 1 and fd != fc
+                chk.ob("C15.d", f"{gd_.path} [window configuration]", okw, f"bucket duration from self.{next(iter(fd))}, bucket count from self.{next(iter(fc))}, independently" if okw else f"the summary's bucket duration depends on {sorted(fd)} and its bucket count on {sorted(fc)}: a configured duration or count is discarded unless both are set, and the quantiles cover a different window than configured", ns[0].loc())
     from props.common import import_rules
 
     import_rules(ctx, "C07", {"C07.b"}, "C15.e", "imported from C07 (how a summary is aggregated and rendered): per sample one add(sample, ts) and sum += sample, and render takes _count/_sum from the cumulative counters, never from the windowed snapshot — otherwise _sum and _count do not cover all samples (they shrink as the window moves, or skip non-finite samples)", floor=4)
